@@ -3,7 +3,7 @@ import json, os
 import core, gen, gen_units as G, canon
 from core import hx, unhx
 
-LEAN_MODULE = 'QM.Props.C02'
+LEAN_MODULE = 'QM.Props.C02Delta'
 ROWTHMS = ['rows_from_build_unit_all_string_keys', 'rows_from_build_unit_bool_keys', 'rows_from_build_unit_string_keys',
            'rows_from_container_unit_all_string_keys', 'rows_from_container_unit_bool_keys', 'rows_from_container_unit_string_keys',
            'rows_from_image_unit_bool_keys', 'rows_from_image_unit_string_keys', 'rows_from_network_unit_bool_keys',
@@ -14,9 +14,13 @@ ROWTHMS = ['rows_from_build_unit_all_string_keys', 'rows_from_build_unit_bool_ke
 THEOREMS = (['Cv.C02_frame_string', 'Cv.C02_frame_all', 'Cv.C02_frame_bool', 'Cv.C02_row_string', 'Cv.C02_row_all', 'Cv.C02_row_bool',
              'Cv.C02_add_key_string', 'Cv.C02_add_key_all', 'Cv.C02_add_key_bool', 'Cv.C02_other_key_string', 'Cv.C02_image_shape',
              'Cv.C02_network_shape', 'Cv.C02_pod_shape', 'Cv.C02_kube_shape', 'Cv.C02_build_shape', 'Cv.C02_container_shape', 'Cv.C02_volume_shape',
-             'Cv.HasExec.splits', 'Cv.rowString_infix', 'Cv.C02_string_option_reaches_podman'] +
+             'Cv.HasExec.splits', 'Cv.rowString_infix', 'Cv.C02_string_option_reaches_podman',
+             'Cv.cmd_delta', 'Cv.cmd_unread', 'Cv.split_at_reader', 'Cv.delta_of_segs', 'Cv.imageCmd_segs', 'Cv.imageSegs_local', 'Cv.imageKeys_nodup', 'Cv.imageKeys_documented',
+             'Cv.imageKeys_complete', 'Cv.C02_image_delta', 'Cv.C02_image_unread', 'Cv.C02_image_add_key', 'Cv.fromNetwork_segs', 'Cv.networkSegs_local', 'Cv.networkKeys_nodup',
+             'Cv.networkKeys_documented', 'Cv.networkKeys_complete', 'Cv.C02_network_delta', 'Cv.C02_network_unread'] +
             ['Conform.' + t for t in ROWTHMS] + ['Conform.lookup_kinds'])
 ASSUMPTIONS = [
+    '"adding the key changes nothing else in the command" is a theorem for the .image and .network converter models (QM/ConvDelta.lean, QM/Props/C02Delta.lean): the command is the concatenation of the blocks of segments, each a function of the assignment histories of its own keys; no key is read by two segments (decided over the tables regenerated from the source); hence two units that differ only in one key — added, re-assigned, reset, set in a drop-in — get commands that coincide argument for argument outside that key\'s block (C02_<type>_delta), and every documented key has a block (…Keys_complete). For the other five converters this clause is decided by the delta oracle on real conversions',
     'Spec.rows_* / Spec.lookupKinds (lean/QM/Spec/Keys.lean, spec/keys.json) are the frozen documented key -> option tables and lookup kinds, seeded from the pinned tree',
     'the table-driven rows (string / all-strings / boolean keys, health keys, PublishPort, ContainersConfModule) are proved generically; the whole-command shape is proved for all seven converter models (C02_<type>_shape: the Exec line is the rendering of an explicit vector with the key tables as contiguous blocks in table order, PodmanArgs after the key-derived options, positional arguments last; results of handlers that depend on other units are existentially quantified); for the "special" keys (Volume, Mount, Network, User/Group, UserNS…, Notify, AutoUpdate, …) the exact option groups are checked on real conversions by the delta oracle',
     'Mount= values that need CSV quoting are outside the model (answered out-of-model by the model driver; still covered by the oracle)',
